@@ -34,6 +34,9 @@ type Case struct {
 	// TwoSchemas (realm level): both realms hold a second schema crm with a copy of the users table. 1: nothing else;
 	// 2: in the desired realm posts.fk_posts_user references crm.users instead of app.users; 3: the other way round.
 	TwoSchemas int `json:"two_schemas,omitempty"`
+	// Flavour (MySQL): the differ of a driver opened against a server of this flavour / version (gm.MySQLFlavours) instead
+	// of mysql.DefaultDiff
+	Flavour string `json:"flavour,omitempty"`
 }
 
 // DefaultCollation of the character sets used by the base (MySQL 8 defaults, as in the driver's embedded tables).
@@ -702,6 +705,13 @@ func checkCase(c Case) (Outcome, error) {
 		Permute(to, c.Perm)
 	}
 	differ := gm.Differ(c.Dialect)
+	if c.Dialect == "mysql" && c.Flavour != "" {
+		drv, err := gm.OpenMySQL(c.Flavour)
+		if err != nil {
+			return out, fmt.Errorf("harness: %v", err)
+		}
+		differ = drv
+	}
 	var changes []schema.Change
 	switch c.Level {
 	case "realm":
